@@ -19,6 +19,14 @@ def gen_consts(steps, **over):
     return consts(**c)
 
 
+def afterintr_consts():
+    """a recorded run that is cut short inside an intercepted call (survived by the service), then another recorded run on
+    the same recorder and its replay: the later run's output entries are complete"""
+    return gen_consts(2, MaxRuns=3, MaxRecs=2, Modes=['same'], EditKinds=[], OutResults=[('val', 'v1'), ('int', 'BI')],
+                      Bodies=['plain', 'interrupt'], Ends=['ret', 'interrupt'], InCalls=[('ia1', 1)], OutAliases=['oa1'],
+                      Vals=['v1'], Ctl=[])
+
+
 def deep_consts(n):
     return consts(InCalls=[], OutAliases=['oa1'], Vals=['v1', 'v2'], SentVals=['v1'], OutResults=[('val', 'v1')], Ends=['ret'],
                   Classes=[K('K1')], MaxSteps=n, MaxRuns=2, MaxRecs=1, Modes=['same', 'edit'],
@@ -47,6 +55,7 @@ def run(rep, tier, seed):
                          cassettes=('memory',), n_conc=1, sample=2500, cap=4000)
             chk.generate('deep11', deep_consts(11), cassettes=('memory', 's3'), n_conc=1, sample=300, cap=500,
                          invariants=['TypeOK'], max_states=600000)
+            chk.generate('afterintr', afterintr_consts(), cassettes=('memory',), n_conc=1, sample=2000, cap=4000)
         else:
             noctl = [e for e in EDITS if e != 'ctl']
             chk.check('chk', gen_consts(3), invariants=INVS, timeout=3000)
@@ -56,6 +65,7 @@ def run(rep, tier, seed):
                          max_states=800000)
             chk.generate('gen3ctl', gen_consts(3, InCalls=[('ia1', 1)], Vals=['v1']),
                          cassettes=('memory', 'file'), n_conc=1, sample=40000, cap=60000, max_states=800000)
+            chk.generate('afterintr', afterintr_consts(), cassettes=('memory', 'file'), n_conc=1, all_paths=True, cap=100000)
             chk.generate('deep12', deep_consts(12), cassettes=('memory', 'file', 's3'), n_conc=1, sample=5000, cap=8000,
                          invariants=['TypeOK'], max_states=800000)
     finally:
